@@ -1191,3 +1191,46 @@ spec("C11", plan=plan_c11,
           "(does not terminate within 30000 rule attempts / 250 nested attempts); if analyze<G>(-1) == 0 for such a grammar: violation.  "
           "False positives of the analysis are not judged.  Non-trivial: grammars with a confirmed witness (truly ill-formed).",
      assumptions=COMMON_ASSUME + ["rules without analyze_traits (strict, star_strict) do not compile under analyze<> and are outside the domain"])
+
+# ---------------------------------------------------------------------------- C07
+
+
+def plan_c07(tier, seed, workdir, case):
+    scratch_dir = os.path.join(workdir, "scratch")
+    os.makedirs(scratch_dir, exist_ok=True)
+    if case is not None:
+        g = gen.Grammar.from_json(case["grammar"])
+        g.c07 = True
+        ts = write_tus(workdir, "replay", [g], 1, 1, C09_INCLUDES)
+        return [Run(ts[0], args=["--prop", "C07", "--scratch", os.path.join(scratch_dir, "replay.bin")])]
+    q = tier == "quick"
+    G = gen.Gen(seed * 1000 + 101, ops=CORE_OPS * 2 + ["until", "list", "rep", "rep_min_max", "if_then_else", "opt_must", "must", "rematch", "minus",
+                                                       "pad", "star_must", "strict", "partial", "try_catch_return_false"],
+                atoms=["any", "one", "one2", "not_one", "range", "string2", "string3", "eof", "ab", "nl_one", "string_nl", "eol", "eolf", "bytes2",
+                       "istring_nl", "utf8_any", "until_eol", "bof", "three_nl"],
+                max_depth=3, nrules=(1, 3))
+    gs = []
+    for _ in range(32 if q else 320):
+        g, rej = G.grammar()
+        g.c07 = True
+        g.alphabet = "ab\n\r"
+        gs.append(g)
+    runs = []
+    for i, t in enumerate(write_tus(workdir, "i1", gs, 2 if q else 8, 1, C09_INCLUDES)):
+        runs.append(Run(t, args=["--prop", "C07", "--scratch", os.path.join(scratch_dir, "f%d.bin" % i)]))
+    return runs
+
+
+spec("C07", plan=plan_c07,
+     rule="differential over input classes: random grammars (core and convenience rules incl. until / rematch / must / try_catch, atoms with "
+          "end-of-line characters) and two derived scanning grammars per grammar (one with discard at the end of each top-level repetition "
+          "element); every case is parsed through memory_input eager (baseline) and lazy, string_input, argv_input, buffer_input with a "
+          "pattern reader and istream_input for Chunk in {1,2,7,64}, and - for a sixth of the rapidcheck cases and for files of 0, 1, "
+          "4095, 4096, 4097, 8192 bytes - read_input, mmap_input and cstream_input on a scratch file; with and without an action with "
+          "input on every rule; end-of-line policies lf_crlf and cr_crlf.  Cases: all inputs to length 4/5 over {a,b,LF,CR} with a fixed "
+          "adversarial read pattern and buffer maxima 3 / 64, plus rapidcheck (input <= 40 bytes, a HISTORY of read sizes 1..9 the reader "
+          "returns, buffer maximum in {1,2,3,5,8,16,64,4096}).  Oracle: (result | exception type+message+position, consumed length, "
+          "action trace with spans as bytes and positions, hook trace with positions) equals the baseline's; std::overflow_error is the "
+          "only permitted deviation for the incremental inputs.  Non-trivial: buffer runs in which the reader was called again after "
+          "parsing had started, and file based runs; distinct = (grammar, input, read pattern, maximum).",
+     assumptions=COMMON_ASSUME + ["discard is used only at the end of a top-level repetition element and only in runs without actions with input"])
